@@ -24,6 +24,35 @@ pub fn gen(tier: &str, seed: u64) -> Vec<String> {
         let kh: Vec<KEv> = h.into_iter().map(KEv::L).collect();
         lines.push(mk_kline("KAN", false, &cfg, &kh));
     }
+    // configurations outside the kanata-level model (chords v2, sequence mode, dynamic macros): the
+    // real code is run all the same and judged by the model-free clause "everything released at the
+    // OS after the quiet tail, idle reported"
+    {
+        let outside: [(&str, &[&str]); 6] = [
+            ("(defcfg concurrent-tap-hold yes)\n(defsrc a b c d e)\n(deflayer l0 a b c d e)\n(defchordsv2\n (a b) x 50 all-released ()\n (a b c) y 50 first-release ()\n (c d) (multi lsft z) 50 all-released ())\n", &["a", "b", "c", "d", "e"]),
+            ("(defcfg concurrent-tap-hold yes chords-v2-min-idle 20)\n(defsrc a b c d e)\n(deflayer l0 a (tap-hold 50 50 b lctl) c d (layer-while-held l1))\n(deflayer l1 1 2 3 4 _)\n(defchordsv2\n (a b) x 30 first-release (l1)\n (c d) (one-shot 100 lsft) 30 all-released ())\n", &["a", "b", "c", "d", "e"]),
+            ("(defcfg sequence-timeout 100)\n(defvirtualkeys v1 (macro x y))\n(defseq v1 (a b))\n(defsrc s a b c)\n(deflayer l0 sldr a b c)\n", &["s", "a", "b", "c"]),
+            ("(defcfg sequence-timeout 100 sequence-input-mode hidden-delay-type)\n(defvirtualkeys v1 z v2 (multi lsft y))\n(defseq v1 (a b) v2 (a c))\n(defsrc s a b c)\n(deflayer l0 sldr a b c)\n", &["s", "a", "b", "c"]),
+            ("(defcfg sequence-timeout 100 sequence-input-mode visible-backspaced)\n(defvirtualkeys v1 z)\n(defseq v1 (a b c))\n(defsrc s a b c)\n(deflayer l0 sldr a b c)\n", &["s", "a", "b", "c"]),
+            ("(defsrc r p a b)\n(deflayer l0 (dynamic-macro-record 1) (dynamic-macro-play 1) a (multi lsft b))\n", &["r", "p", "a", "b"]),
+        ];
+        let per = if thorough { 400 } else { 60 };
+        for (cfg, keys) in outside {
+            let keys: Vec<u16> = keys.iter().map(|k| code(k)).collect();
+            for i in 0..per {
+                let (n_ev, gaps): (usize, &[u32]) = match i % 5 {
+                    0 => (r.range(34, 90) as usize, &[0, 0, 0, 1]),
+                    1 => (r.range(17, 40) as usize, &[0]),
+                    2 => (r.range(2, 16) as usize, &[0, 1, 2, 5]),
+                    3 => (r.range(2, 16) as usize, &[1, 29, 30, 31, 49, 50, 51]),
+                    _ => (r.range(4, 30) as usize, &[0, 1, 20, 110]),
+                };
+                let h = consistent_history(&mut r, &keys, n_ev, gaps, 3000);
+                let kh: Vec<KEv> = h.into_iter().map(KEv::L).collect();
+                lines.push(mk_kline("KAN", false, cfg, &kh));
+            }
+        }
+    }
     // many keys at once: more than 64 states, more than 8 tap-holds, more than 16 one-shots
     let many = ["a", "b", "c", "d", "e", "f", "g", "h", "i", "j", "k", "l", "m", "n", "o", "p", "q", "r", "s", "t"];
     for (name, action) in [
